@@ -9,7 +9,7 @@ use std::rc::Rc;
 pub const DEF: PropDef = PropDef {
     id: "C02",
     level: "exploration",
-    rule: "(text, expected tree) pairs from a reference grammar that never calls the rrss parser: (1) every chain of 2 and 3 binary operators over 18 operator spellings with the tree from the precedence ladder; (2) unary prefixes in every operand position; (3) list operands at every precedence level (single operator, last-operator-takes-the-list, elements that are a higher- or lower-precedence operation, both separators); (4) primaries: subscript chains, calls with 1..3 arguments x 5 separators x argument shapes, nested calls, roll, literals of every kind, 10 numeral spellings, 7 string spellings, the three name kinds; (5) all statement kinds with every slot filled from a 14-shape expression set, in three contexts (top level, inside if, inside a function body); (6) every block-nesting shape over {simple, if, if-else, while, until, function} up to the node bound, closed by blank lines or by end of input; (7) on every base program of (4)-(6): every single departure from canonical spelling (each keyword x every alias, 3 case variants and all 2^n casings for n<=4; each gap x 28 noise kinds (blanks, tabs, ignorable punctuation, one / two / three comments in one gap, multi-line comments, non-ASCII white space); trailing punctuation; missing final newline; whole-program respellings: CR LF line ends, tabs or NBSP for every space, all keywords upper / title case, double spaces, blank lines carrying blanks, indentation on every line), (thorough) all pairs of departures on the statement corpus; oracle: RAst(parse(text)) == expected; non-trivial = all cases (each compares a full tree); distinct = distinct text",
+    rule: "(text, expected tree) pairs from a reference grammar that never calls the rrss parser: (1) every chain of 2 and 3 binary operators over 18 operator spellings with the tree from the precedence ladder; (2) unary prefixes in every operand position; (3) list operands at every precedence level (single operator, last-operator-takes-the-list, elements that are a higher- or lower-precedence operation, both separators); (4) primaries: subscript chains, calls with 1..3 arguments x 5 separators x argument shapes, nested calls, roll, literals of every kind, 10 numeral spellings, 7 string spellings, the three name kinds; (5) all statement kinds with every slot filled from a 14-shape expression set, in three contexts (top level, inside if, inside a function body); (6) every block-nesting shape over {simple, if, if-else, while, until, function} up to the node bound, closed by blank lines or by end of input; (7) on every base program of (4)-(6): every single departure from canonical spelling (each keyword x every alias as listed / upper case / capitalised, 3 case variants and all 2^n casings for n<=4; each gap x 28 noise kinds (blanks, tabs, ignorable punctuation, one / two / three comments in one gap, multi-line comments, non-ASCII white space); trailing punctuation; missing final newline; whole-program respellings: CR LF line ends, tabs or NBSP for every space, all keywords upper / title case, double spaces, blank lines carrying blanks, indentation on every line), (thorough) all pairs of departures on the statement corpus; oracle: RAst(parse(text)) == expected; non-trivial = all cases (each compares a full tree); distinct = distinct text",
     assumptions: &[
         "reference grammar (refmodel/grammar.rs): precedence ladder logical < comparison < term < factor < unary < primary, left-associative folds, the last operator before a comma takes the list, one blank line closes one block, else closes a then-block, an if-else ends a function body",
         "identifier spelling is part of the tree (names are compared as written), so identifier case is varied by C15, not here; poetic literals are content, varied by C11; corners the property does not determine (U-lists, U-emptyblock) are not generated",
@@ -531,6 +531,29 @@ pub enum Dev {
     SuffixIs(usize, usize),
 }
 
+/// alias number a of a keyword class: as listed (a < n), upper case (n <= a < 2n), first letter capital (2n <= a < 3n)
+fn alias_spelling(class: &'static str, a: usize) -> String {
+    let al = aliases_of(class);
+    let w = al[a % al.len()];
+    match a / al.len() {
+        0 => w.to_string(),
+        1 => w.to_uppercase(),
+        _ => {
+            let mut out = String::new();
+            let mut done = false;
+            for c in w.chars() {
+                if !done && c.is_alphabetic() {
+                    out.extend(c.to_uppercase());
+                    done = true;
+                } else {
+                    out.push(c);
+                }
+            }
+            out
+        }
+    }
+}
+
 fn recase(s: &str, mode: usize) -> Option<String> {
     if !s.chars().any(|c| c.is_alphabetic()) {
         return None;
@@ -585,8 +608,9 @@ pub fn deviations(toks: &[Tk]) -> Vec<Dev> {
         }
         if let Some(class) = t.kw {
             let al = aliases_of(class);
-            for a in 0..al.len() {
-                if al[a] != t.s {
+            // every alias as listed, in upper case and in title case
+            for a in 0..3 * al.len() {
+                if alias_spelling(class, a) != t.s {
                     v.push(Dev::Alias(i, a));
                 }
             }
@@ -655,7 +679,7 @@ pub fn apply_dev(toks: &[Tk], d: &Dev) -> String {
     let mut t = toks.to_vec();
     match d {
         Dev::Alias(i, a) => {
-            t[*i].s = aliases_of(t[*i].kw.unwrap())[*a].to_string();
+            t[*i].s = alias_spelling(t[*i].kw.unwrap(), *a);
             render(&t)
         }
         Dev::Case(i, m) => {
@@ -925,7 +949,7 @@ impl C02 {
                 let mut t1 = t.clone();
                 let text = match d1 {
                     Dev::Alias(i, a) => {
-                        t1[*i].s = aliases_of(t1[*i].kw.unwrap())[*a].to_string();
+                        t1[*i].s = alias_spelling(t1[*i].kw.unwrap(), *a);
                         apply_dev(&t1, d2)
                     }
                     Dev::Case(i, m) => {
